@@ -667,6 +667,8 @@ class _Frame:
         for op, r in zip(n.ops, n.comparators):
             right = self.ev(r)
             ok = self.cmp(op, left, right, n)
+            if len(n.ops) == 1 and (isinstance(ok, XArray) or getattr(type(ok), "_xeval_open", False)):
+                return ok  # element-wise / symbolic comparison: a mask, not a truth value
             if not ok:
                 return False
             left = right
@@ -793,7 +795,7 @@ class _Frame:
                 return lambda *a, **k: obj
             if attr == "repeat":
                 return lambda repeats, axis=None: _np_repeat(obj, repeats, axis)
-            if attr in ("integrate", "_ndim") and hasattr(obj, attr):
+            if attr in ("integrate", "_ndim", "dot", "ddot") and hasattr(obj, attr):
                 return getattr(obj, attr)
             raise self.bad(f"array attribute {attr}", n)
         if isinstance(obj, XObj):
